@@ -125,3 +125,64 @@ package memfs
 //@ func (*fileNode).size
 //@   ensures[C02] r0 == len(fn.data)
 //@   modifies nothing
+
+//@ type MemFS
+//@   inv[C03,C05] self.user != nil && self.lastId != nil && self.rootNode != nil
+
+// ---- memfs_internal.go: permission checks and creation formulas (C03) --------------------------
+
+//@ func (*baseNode).checkPermission
+//@   mode bv
+//@   requires u != nil
+//@   let cls := bn.uid == u.Uid() ? avfs.OpenMode(bn.mode) >> 6 : (bn.gid == u.Gid() ? avfs.OpenMode(bn.mode) >> 3 : avfs.OpenMode(bn.mode))
+//@   ensures[C03] u.IsAdmin() ==> r0
+//@   ensures[C03] !u.IsAdmin() ==> r0 == (cls & (perm & 7) == perm & 7)
+//@   modifies nothing
+
+//@ func (*baseNode).setModTime
+//@   requires u != nil
+//@   ensures[C03] r0 == (bn.uid == u.Uid() || u.IsAdmin())
+//@   ensures[C03] !r0 ==> bn.mtime == old(bn.mtime)
+//@   modifies bn.mtime
+
+//@ func (*baseNode).setOwner
+//@   ensures[C03] bn.uid == uid && bn.gid == gid
+//@   modifies bn.uid, bn.gid
+
+//@ func (*dirNode).setMode
+//@   mode bv
+//@   requires u != nil
+//@   ensures[C03] r0 == (dn.uid == u.Uid() || u.IsAdmin())
+//@   ensures[C03] !r0 ==> dn.mode == old(dn.mode)
+//@   ensures[C03] r0 ==> dn.mode == (old(dn.mode) &^ avfs.FileModeMask) | (mode & avfs.FileModeMask)
+//@   modifies dn.mode
+
+//@ func (*fileNode).setMode
+//@   mode bv
+//@   requires u != nil
+//@   ensures[C03] r0 == (fn.uid == u.Uid() || u.IsAdmin())
+//@   ensures[C03] !r0 ==> fn.mode == old(fn.mode)
+//@   ensures[C03] r0 ==> fn.mode == (old(fn.mode) &^ avfs.FileModeMask) | (mode & avfs.FileModeMask)
+//@   modifies fn.mode
+
+//@ func (*symlinkNode).setMode
+//@   ensures[C03] !r0
+//@   modifies nothing
+
+//@ func (*MemFS).createDir
+//@   mode bv
+//@   requires parent != nil
+//@   ensures[C03] fresh(r0) && r0.mode == vfs.dirMode | (perm & avfs.FileModeMask &^ vfs.umask) && r0.uid == vfs.user.Uid() && r0.gid == vfs.user.Gid()
+//@   ensures[C05] dom(parent.children, name) && parent.children[name] is *dirNode && parent.children[name].(*dirNode) == r0
+
+//@ func (*MemFS).createFile
+//@   mode bv
+//@   requires parent != nil
+//@   ensures[C03] fresh(r0) && r0.mode == vfs.fileMode | (perm & avfs.FileModeMask &^ vfs.umask) && r0.uid == vfs.user.Uid() && r0.gid == vfs.user.Gid()
+//@   ensures[C05] r0.nlink == 1 && dom(parent.children, name) && parent.children[name] is *fileNode && parent.children[name].(*fileNode) == r0
+
+//@ func (*MemFS).createSymlink
+//@   mode bv
+//@   requires parent != nil
+//@   ensures[C03] fresh(r0) && r0.mode == fs.ModeSymlink | fs.ModePerm && r0.uid == vfs.user.Uid() && r0.gid == vfs.user.Gid()
+//@   ensures[C04,C05] r0.link == link && dom(parent.children, name) && parent.children[name] is *symlinkNode && parent.children[name].(*symlinkNode) == r0
